@@ -75,13 +75,18 @@ try:
     import _sha256    # type: ignore
     new_sha256 = _sha256.sha256
 except ImportError:
-    def new_sha256(*args):    # pylint: disable=unused-argument
-        # type: (bytes) -> str
-        raise NotImplementedError(
-            "Built-in sha1 implementation not found; cannot use hashlib"
-            " implementation because it depends on OpenSSL, which"
-            " may not be linked with this library due to license"
-            " incompatibilities")
+    try:
+        # Python >= 3.12 merged the built-in _sha256 and _sha512 into _sha2
+        import _sha2    # type: ignore
+        new_sha256 = _sha2.sha256
+    except ImportError:
+        def new_sha256(*args):    # pylint: disable=unused-argument
+            # type: (bytes) -> str
+            raise NotImplementedError(
+                "Built-in sha256 implementation not found; cannot use hashlib"
+                " implementation because it depends on OpenSSL, which"
+                " may not be linked with this library due to license"
+                " incompatibilities")
 
 
 class ParseError(Exception):
